@@ -1091,3 +1091,157 @@ Proof. unfold lrun. eauto. Qed.
 (** A PeriodicReader around a nil exporter is the one stock configuration that does (F-C15-4). *)
 Lemma metric_nil_periodic_crashes : forall ops, mrun [RPeriodic XNil] ops = Crash.
 Proof. reflexivity. Qed.
+
+(** * Concurrent Shutdown callers on the log / metric providers (swap and Once protocols) *)
+Section OneShot.
+  Variable blocking : bool.
+  Variable n : nat.
+  Variable callers : nat -> bool.
+  Notation SR := (Reach (sstep blocking n callers) sinit).
+
+  Definition progress (s : sstate) : nat :=
+    match s_flag s with
+    | None => 0
+    | Some w => match s_pcs s w with SRun i => i | SDone _ => n | SIdle => 0 end
+    end.
+
+  Definition SInv (s : sstate) : Prop :=
+    (forall j, s_counts s j = if j <? progress s then 1 else 0) /\
+    progress s <= n /\
+    (forall t i, s_pcs s t = SRun i -> s_flag s = Some t) /\
+    (s_flag s = None -> forall t, s_pcs s t = SIdle) /\
+    (forall w, s_flag s = Some w -> s_pcs s w <> SIdle /\
+               (s_finished s = true <-> exists e, s_pcs s w = SDone e)).
+
+  Lemma sinv : forall s, SR s -> SInv s.
+  Proof.
+    apply invariant.
+    - unfold SInv, progress; cbn. repeat split; try discriminate; auto; lia.
+    - intros s t s' _ (Hc & Hp & Hrun & Hnone & Hw) Hs. unfold sstep in Hs.
+      destruct (callers t); [|discriminate]. cbn in Hs.
+      destruct (s_pcs s t) as [|i|e] eqn:Hpc; [| |discriminate].
+      + (* a caller arrives *)
+        destruct (s_flag s) as [w|] eqn:Hf.
+        * assert (Hne : w <> t) by (intros ->; destruct (Hw t eq_refl) as [X _]; congruence).
+          assert (Hsame : forall p f, progress {| s_flag := Some w; s_finished := f; s_counts := s_counts s;
+                                                  s_pcs := upd (s_pcs s) t p |} = progress s).
+          { intros p f. unfold progress; cbn. rewrite Hf. now rewrite upd_other by exact Hne. }
+          destruct blocking.
+          -- destruct (s_finished s) eqn:Hfin; [|discriminate]. inversion Hs; subst; clear Hs.
+             unfold SInv. rewrite Hsame. cbn [s_counts s_flag s_pcs s_finished].
+             split; [exact Hc|]. split; [exact Hp|]. split.
+             { intros u i Hu. destruct (Nat.eq_dec u t) as [->|Hn]; [rewrite upd_same in Hu; discriminate|].
+               rewrite upd_other in Hu by exact Hn. rewrite ?Hf. eapply Hrun; eauto. }
+             split; [discriminate|].
+             intros w' Hw'. inversion Hw'; subst w'. rewrite upd_other by exact Hne.
+             destruct (Hw w eq_refl) as [X Y]. split; [exact X | exact Y].
+          -- inversion Hs; subst; clear Hs. unfold SInv. rewrite Hsame. cbn [s_counts s_flag s_pcs s_finished].
+             split; [exact Hc|]. split; [exact Hp|]. split.
+             { intros u i Hu. destruct (Nat.eq_dec u t) as [->|Hn]; [rewrite upd_same in Hu; discriminate|].
+               rewrite upd_other in Hu by exact Hn. rewrite ?Hf. eapply Hrun; eauto. }
+             split; [discriminate|].
+             intros w' Hw'. inversion Hw'; subst w'. rewrite upd_other by exact Hne. now apply Hw.
+        * inversion Hs; subst; clear Hs.
+          assert (Hp0 : progress s = 0) by (unfold progress; now rewrite Hf).
+          unfold SInv, progress. cbn [s_counts s_flag s_pcs s_finished]. rewrite upd_same.
+          split; [intros j; rewrite Hc, Hp0; reflexivity|]. split; [lia|]. split.
+          { intros u i Hu. destruct (Nat.eq_dec u t) as [->|Hn]; [reflexivity|].
+            rewrite upd_other in Hu by exact Hn. rewrite (Hnone eq_refl u) in Hu. discriminate. }
+          split; [discriminate|].
+          intros w' Hw'. inversion Hw'; subst w'. rewrite upd_same. split; [discriminate|].
+          split; [discriminate | intros [e He]; discriminate].
+      + (* the winner works through the processors *)
+        pose proof (Hrun t i Hpc) as Hf. destruct (Hw t Hf) as [_ Hfin].
+        assert (Hpi : progress s = i) by (unfold progress; now rewrite Hf, Hpc).
+        destruct (i <? n) eqn:Hlt; inversion Hs; subst s'; clear Hs.
+        * apply Nat.ltb_lt in Hlt. unfold SInv, progress. cbn [s_counts s_flag s_pcs s_finished]. rewrite Hf, upd_same.
+          split.
+          { intros j. destruct (Nat.eq_dec j i) as [->|Hn].
+            - rewrite upd_same, Hc, Hpi. rewrite Nat.ltb_irrefl. replace (i <? S i) with true by (symmetry; apply Nat.ltb_lt; lia). reflexivity.
+            - rewrite upd_other by exact Hn. rewrite Hc, Hpi.
+              destruct (j <? i) eqn:A; destruct (j <? S i) eqn:B; try reflexivity;
+                apply Nat.ltb_lt in A || apply Nat.ltb_ge in A; apply Nat.ltb_lt in B || apply Nat.ltb_ge in B; lia. }
+          split; [lia|]. split.
+          { intros u k Hu. destruct (Nat.eq_dec u t) as [->|Hn]; [reflexivity|].
+            rewrite upd_other in Hu by exact Hn. eapply Hrun; eauto. }
+          split; [congruence|].
+          intros w' Hw'. inversion Hw'; subst w'. rewrite upd_same. split; [discriminate|].
+          split; [discriminate | intros [e He]; discriminate].
+        * apply Nat.ltb_ge in Hlt. unfold SInv, progress. cbn [s_counts s_flag s_pcs s_finished]. rewrite Hf, upd_same.
+          assert (i = n) by lia. subst i.
+          split; [intros j; rewrite Hc, Hpi; reflexivity|]. split; [lia|]. split.
+          { intros u k Hu. destruct (Nat.eq_dec u t) as [->|Hn]; [rewrite upd_same in Hu; discriminate|].
+            rewrite upd_other in Hu by exact Hn. eapply Hrun; eauto. }
+          split; [congruence|].
+          intros w' Hw'. inversion Hw'; subst w'. rewrite upd_same. split; [discriminate|].
+          split; [eauto | reflexivity].
+  Qed.
+
+  (** Every processor / reader is shut down at most once; exactly once as soon as the winning call
+      has finished; a caller that returned an error-free "I did it" ([blocking]: any returned caller)
+      implies … ; and nobody is stuck. *)
+  Theorem oneshot_once s : SR s ->
+    (forall j, s_counts s j <= 1) /\
+    (forall j, n <= j -> s_counts s j = 0) /\
+    (s_finished s = true -> forall j, j < n -> s_counts s j = 1) /\
+    (blocking = true -> forall t e, s_pcs s t = SDone e -> s_finished s = true).
+  Proof.
+    intros Hr. pose proof (sinv s Hr) as (Hc & Hp & Hrun & Hnone & Hw).
+    split; [intros j; rewrite Hc; destruct (j <? progress s); lia|].
+    split; [intros j Hj; rewrite Hc; replace (j <? progress s) with false; [reflexivity | symmetry; apply Nat.ltb_ge; lia]|].
+    split.
+    - intros Hfin j Hj. rewrite Hc.
+      destruct (s_flag s) as [w|] eqn:Hf.
+      + destruct (Hw w eq_refl) as [_ X]. apply X in Hfin as [e He].
+        unfold progress. rewrite Hf, He. replace (j <? n) with true; [reflexivity | symmetry; now apply Nat.ltb_lt].
+      + (* finished without a winner is impossible *)
+        exfalso. clear - Hr Hfin Hf. induction Hr as [|s0 t s1 Hr0 IH Hs]; [discriminate|].
+        unfold sstep in Hs. destruct (callers t); [|discriminate]. cbn in Hs.
+        destruct (s_pcs s0 t); [| |discriminate].
+        * destruct (s_flag s0) eqn:F0; [destruct blocking; [destruct (s_finished s0); [|discriminate]|]|];
+            inversion Hs; subst; cbn in *; discriminate.
+        * pose proof (sinv s0 Hr0) as (_ & _ & Hrun0 & _).
+          destruct (i <? n); inversion Hs; subst; cbn in *; try discriminate.
+          destruct (s_pcs s0 t) eqn:X; congruence.
+    - intros Hb t e Ht. subst blocking.
+      induction Hr as [|s0 u s1 Hr0 IH Hs]; [discriminate|].
+      pose proof (sinv s0 Hr0) as (_ & _ & _ & Hnone0 & _).
+      unfold sstep in Hs. destruct (callers u); [|discriminate]. cbn in Hs.
+      destruct (s_pcs s0 u) eqn:Hpu; [| |discriminate].
+      + destruct (s_flag s0) eqn:F0.
+        * destruct (s_finished s0) eqn:Hfin; [|discriminate]. inversion Hs; subst; reflexivity.
+        * inversion Hs; subst; cbn in *. destruct (Nat.eq_dec t u) as [->|Hn]; [rewrite upd_same in Ht; discriminate|].
+          rewrite upd_other in Ht by exact Hn. rewrite (Hnone0 eq_refl t) in Ht. discriminate.
+      + destruct (i <? n); inversion Hs; subst; cbn in *; [|reflexivity].
+        destruct (Nat.eq_dec t u) as [->|Hn]; [rewrite upd_same in Ht; discriminate|].
+        rewrite upd_other in Ht by exact Hn. specialize (IH Hr0 Ht).
+        pose proof (sinv s0 Hr0) as (_ & _ & Hrun0 & _ & Hw0).
+        pose proof (Hrun0 u i Hpu) as Hfu. destruct (Hw0 u Hfu) as [_ X]. apply X in IH as [e' He']. congruence.
+  Qed.
+
+  Theorem oneshot_no_deadlock s t : SR s -> callers t = true -> (forall e, s_pcs s t <> SDone e) ->
+    exists u, sstep blocking n callers s u <> None.
+  Proof.
+    intros Hr Hc Hnd. pose proof (sinv s Hr) as (_ & _ & Hrun & Hnone & Hw).
+    destruct (s_flag s) as [w|] eqn:Hf.
+    - destruct (Hw w eq_refl) as [Hni Hfin].
+      destruct (s_pcs s w) as [|i|e] eqn:Hpw; [contradiction| |].
+      + exists w. unfold sstep.
+        assert (Hcw : callers w = true).
+        { clear - Hr Hpw. revert i Hpw. induction Hr as [|s0 u s1 Hr0 IH Hs]; intros i Hpw; [discriminate|].
+          unfold sstep in Hs. destruct (callers u) eqn:Hu; [|discriminate]. cbn in Hs.
+          destruct (Nat.eq_dec w u) as [->|Hn]; [exact Hu|].
+          destruct (s_pcs s0 u); [| |discriminate].
+          - destruct (s_flag s0); [destruct blocking; [destruct (s_finished s0); [|discriminate]|]|];
+              inversion Hs; subst; cbn in Hpw; rewrite upd_other in Hpw by exact Hn; eauto.
+          - destruct (i0 <? n); inversion Hs; subst; cbn in Hpw; rewrite upd_other in Hpw by exact Hn; eauto. }
+        rewrite Hcw, Hpw. cbn. destruct (i <? n); discriminate.
+      + exists t. unfold sstep. rewrite Hc. cbn.
+        destruct (s_pcs s t) as [|i|e'] eqn:Hpt.
+        * rewrite Hf. assert (Hfi : s_finished s = true) by (apply Hfin; eauto). rewrite Hfi.
+          destruct blocking; discriminate.
+        * pose proof (Hrun t i Hpt). assert (w = t) by congruence. subst. congruence.
+        * exfalso. eapply Hnd; eauto.
+    - exists t. unfold sstep. rewrite Hc. cbn. rewrite (Hnone eq_refl t), Hf. discriminate.
+  Qed.
+End OneShot.
